@@ -269,6 +269,14 @@ class Verifier(Interp):
                 self.prove(f"{fn_label}/post/{lab}", v, "postcondition")
             if "post" not in self.cover:
                 self.cover["post"] = True
+            # must-fail canary: `False` must NOT be provable at a normal exit, i.e. the assumptions collected along the path
+            # (preconditions, ghost definitions, library models, assumed invariants and callee postconditions) are consistent
+            nx = self.cover.get(("exits", self.variant), 0)
+            if nx < 2:
+                self.cover[("exits", self.variant)] = nx + 1
+                from .engine import Oblig
+
+                self.covers.append(Oblig(f"{self.prop}/{fn_label}/cover/assumptions-consistent-at-exit-{nx}", list(self.pc), z3.BoolVal(False), "cover", self.variant))
 
         variants = c.variants if c.variants else {"": c.setup}
         npaths = 0
